@@ -546,7 +546,7 @@ impl BaseFunc {
   pub uninterp spec fn g_call(&self, x: MatR, params: Seq<real>) -> MatR;
   #[verifier::external_body]
   pub fn call(&self, location: &DMatrix, parameters: &[Sc]) -> (r: DMatrix)
-    requires location.ok()
+    requires location.ok(), self.g_req(location@, sc_seq(parameters@))
     ensures r@ == self.g_call(location@, sc_seq(parameters@)), r.ok(), r@.c == 1 { unimplemented!() }
 }
 impl DMatrix {
@@ -557,6 +557,103 @@ impl DMatrix {
   #[verifier::external_body]
   pub fn from_vec(v: Vec<Sc>) -> (m: DMatrix) ensures m.ok(), m@.c == 1, m@.r == v@.len(), m@.e[0] == sc_seq(v@) { unimplemented!() }
 }
+
+
+// =============================================================================== model builder support (unit mbuilder)
+/// `BasisFunction<ScalarType, ArgList>` (src/basis_function/mod.rs): a user callable with ARGUMENT_COUNT scalar arguments.
+/// Its implementations for arities 1..10 are generated by macro_rules! (never seen by Verus): `eval` panics unless
+/// `params.len() == ARGUMENT_COUNT` and hands position n of the slice to argument n -- proved by the ten loop-free
+/// Kani harnesses `dispatch_arity_n`. `bf_call` is the ghost function of the user's callable (panics inside it: out of scope).
+pub trait BasisFunction<ArgList>: Sized {
+  spec fn bf_call(&self, x: MatR, args: Seq<real>) -> MatR;
+  const ARGUMENT_COUNT: usize;
+  fn eval(&self, x: &DMatrix, params: &[Sc]) -> (r: DMatrix)
+    requires x.ok(), params@.len() == Self::ARGUMENT_COUNT,
+    ensures r@ == self.bf_call(x@, sc_seq(params@)), r.ok(), r@.c == 1;
+}
+impl BaseFunc {
+  /// when may the boxed callable be invoked without panicking (slice long enough for the wrapped index mapping)
+  pub uninterp spec fn g_req(&self, x: MatR, params: Seq<real>) -> bool;
+  /// rule X7b: `Box::new(closure)` coerced to the boxed dyn Fn. The boxed callable behaves as the closure does:
+  /// `g` is the ghost function the closure was PROVED to compute, `rq` the precondition it was proved under.
+  /// Assumed: a closure returns for every argument satisfying its precondition.
+  #[verifier::external_body]
+  pub fn from_closure<F: Fn(&DMatrix, &[Sc]) -> DMatrix>(f: F, Ghost(g): Ghost<spec_fn(MatR, Seq<real>) -> MatR>, Ghost(rq): Ghost<spec_fn(MatR, Seq<real>) -> bool>) -> (r: BaseFunc)
+    requires
+      forall |x: &DMatrix, p: &[Sc]| (x.ok() && #[trigger] rq(x@, sc_seq(p@))) ==> f.requires((x, p)),
+      forall |x: &DMatrix, p: &[Sc], o: DMatrix| #[trigger] f.ensures((x, p), o) ==> o@ == g(x@, sc_seq(p@)),
+    ensures
+      forall |x: MatR, p: Seq<real>| #[trigger] r.g_call(x, p) == g(x, p),
+      forall |x: MatR, p: Seq<real>| #[trigger] r.g_req(x, p) == rq(x, p),
+  { unimplemented!() }
+}
+/// rule X13: `names.into_iter().map(|s| s.as_ref().to_string()).collect()`: the same names, as Strings, in order
+#[verifier::external_body]
+pub fn __vp_to_strings(names: Vec<String>) -> (r: Vec<String>) ensures r@ == names@ { unimplemented!() }
+/// rule X13: `names.iter().cloned().map(|n| n.into()).collect()`
+#[verifier::external_body]
+pub fn __vp_clone_strings(names: &[String]) -> (r: Vec<String>) ensures r@ == names@ { unimplemented!() }
+/// `StrType: Into<String>` instantiated at String: the identity
+pub fn __vp_into_string(s: String) -> (r: String) ensures r@ == s@ { s }
+/// `s.contains(<char>)`
+#[verifier::external_body]
+pub fn __vp_str_contains_char(s: &String, c: char) -> (r: bool) ensures r == s@.contains(c) { unimplemented!() }
+pub assume_specification<T: PartialEq> [<[T]>::contains] (s: &[T], x: &T) -> (r: bool)
+  ensures r == exists |i: int| 0 <= i < s@.len() && #[trigger] s@[i] == *x;
+pub assume_specification<T, E> [core::result::Result::<T, E>::as_mut] (r: &mut core::result::Result<T, E>) -> (o: core::result::Result<&mut T, &mut E>)
+  ensures
+    *old(r) matches Ok(t0) ==> (o matches Ok(t) && *t == t0 && *final(r) == Ok::<T, E>(*final(t))),
+    *old(r) matches Err(e0) ==> (o matches Err(e) && *e == e0 && *final(r) == Err::<T, E>(*final(e)));
+
+
+// =============================================================================== varpro: model builder vocabulary and its two assumed leaves
+/// src/model/builder/error.rs (variant names checked against /repo by the contracts of unit `model`)
+pub enum ModelBuildError {
+  DuplicateParameterNames { function_parameters: Vec<String> },
+  EmptyParameters,
+  FunctionParameterNotInModel { function_parameter: String },
+  InvalidDerivative { parameter: String, function_parameters: Vec<String> },
+  DuplicateDerivative { parameter: String },
+  MissingDerivative { missing_parameter: String, function_parameters: Vec<String> },
+  EmptyModel,
+  UnusedParameter { parameter: String },
+  IncorrectParameterCount { actual: usize, expected: usize },
+  CommaInParameterNameNotAllowed { param_name: String },
+  MissingX,
+  MissingInitialParameters,
+  IllegalCallToPartialDeriv,
+}
+pub open spec fn has_comma(s: Seq<char>) -> bool { s.contains(',') }
+pub open spec fn no_dups(ns: Seq<String>) -> bool { forall |i: int, j: int| 0 <= i < j < ns.len() ==> (#[trigger] ns[i])@ != (#[trigger] ns[j])@ }
+/// "non-empty, unique, comma-free"
+pub open spec fn names_ok(ns: Seq<String>) -> bool {
+  &&& ns.len() > 0
+  &&& forall |i: int| 0 <= i < ns.len() ==> !has_comma(#[trigger] ns[i]@)
+  &&& no_dups(ns)
+}
+pub open spec fn name_in(ns: Seq<String>, s: Seq<char>) -> bool { exists |i: int| 0 <= i < ns.len() && #[trigger] ns[i]@ == s }
+/// `idx` is the index mapping of `subset` into `full`: the position of each subset name in the full list
+pub open spec fn is_index_mapping(idx: Seq<usize>, full: Seq<String>, subset: Seq<String>) -> bool {
+  &&& idx.len() == subset.len()
+  &&& forall |i: int| 0 <= i < subset.len() ==> (#[trigger] idx[i]) < full.len() && full[idx[i] as int]@ == subset[i]@
+}
+/// the arguments the wrapped callable hands to the user's function: its declared names, in its own order, looked up by position
+pub open spec fn routed(p: Seq<real>, idx: Seq<usize>) -> Seq<real> { Seq::new(idx.len(), |i: int| p[idx[i] as int]) }
+
+/// ASSUMED LEAF src/model/detail.rs `has_only_unique_elements` (HashSet + `all` with a stateful closure: outside the Verus
+/// dialect; Kani timed out on String + SipHash, so there is no bounded stand-in): true iff no two elements are equal
+#[verifier::external_body]
+pub fn has_only_unique_elements(names: &[String]) -> (r: bool) ensures r == no_dups(names@) { unimplemented!() }
+/// ASSUMED LEAF src/model/detail.rs `create_index_mapping` (map/position/collect into Result): the position of every subset
+/// element in `full`; Err(FunctionParameterNotInModel) iff some subset element is missing
+#[verifier::external_body]
+pub fn create_index_mapping(full: &[String], subset: &[String]) -> (r: Result<Vec<usize>, ModelBuildError>)
+  ensures
+    r matches Ok(idx) ==> is_index_mapping(idx@, full@, subset@),
+    r.is_err() <==> exists |i: int| 0 <= i < subset@.len() && !name_in(full@, #[trigger] subset@[i]@),
+    r matches Err(e) ==> (e matches ModelBuildError::FunctionParameterNotInModel { function_parameter }
+        && name_in(subset@, function_parameter@) && !name_in(full@, function_parameter@)),
+{ unimplemented!() }
 
 // =============================================================================== varpro leaves (assumed; bounded Kani validation)
 /// src/solvers/levmar/mod.rs `is_all_finite` (iterator `all` over the entries; Verus has no iterator adapters):
